@@ -210,6 +210,7 @@ SEQUENCE_OF_encode_uper(const asn_TYPE_descriptor_t *td,
         for(edx = encoded_edx; edx < encoded_edx + may_encode; edx++) {
             void *memb_ptr = list->array[edx];
             if(!memb_ptr) ASN__ENCODE_FAILED;
+            if(!elm->type->op->uper_encoder) ASN__ENCODE_FAILED;
             er = elm->type->op->uper_encoder(
                 elm->type, elm->encoding_constraints.per_constraints, memb_ptr,
                 po);
